@@ -139,6 +139,8 @@ type Exec struct {
 	// two-run non-interference (see tworun.go)
 	TwoRun       string // obligation id prefix; "" = off
 	TwoRunOnly   bool   // keep only the two-run obligations of the instance
+	ConcIdx        bool   // replace a symbolic array index by a constant when the path condition admits only one value (two solver calls per site, cached)
+	concIdxMemo    map[[2]int]*Term
 	InitIncomplete string // non-empty: the package initialiser could not be executed completely (reason)
 	MapReverse   bool   // iterate maps with concrete keys in descending instead of ascending key order
 	SymPrefix    string // prefix of input names (the "other run" gets its own inputs)
